@@ -460,8 +460,11 @@ class Repo:
                     if not self.has_func(ck):
                         continue
                     for new_site in call_site_texts(self.func(ck), f.name, cur):
-                        verdicts.append(any(all(new_site[i] == o_[i] for i in idx) for o_ in old_sites))
-                if verdicts and not any(verdicts):
+                        # evidence of a moved meaning: what used to be handed over at one position now arrives at another
+                        for o_ in old_sites:
+                            verdicts.append(any(new_site[i] is not None and new_site[i] != o_[i] and
+                                                any(new_site[i] == o_[j] for j in range(len(o_)) if j != i) for i in idx))
+                if verdicts and all(verdicts):
                     alias = {}
                 f.param_alias = alias
 
